@@ -316,6 +316,61 @@ def fam_multi(rng, pid):
     return b.prog(cfg)
 
 
+RAW_KINDS = ['undecodable', 'badstatus', 'foreign', 'closed']
+
+
+def fam_adapter(rng, pid):
+    """persistent / distributed queues on a recording adapter: faults, bad entries, pause/resume"""
+    b = Builder(rng, 'adapter', pid)
+    kind = rng.choice(['pfifo', 'pprio', 'dfifo', 'dprio'])
+    cfg = {'wk': 'plain', 'conc': rng.choice([1, 1, 2, 3]), 'queues': [kind], 'errs_reader': rng.random() < 0.5}
+    pr = PRIOS if kind in ('pprio', 'dprio') else None
+    paused = rng.random() < 0.4
+    nprod = rng.choice([1, 1, 2])
+    for i in range(nprod):
+        ops = []
+        if paused and i == 0:
+            ops.append({'op': 'Pause'})
+        for _ in range(rng.choice([2, 3, 4, 5])):
+            ops.append(b.add(0, pr))
+            if rng.random() < 0.25:
+                ops.append({'op': 'Raw', 'q': 0, 'kind': rng.choice(RAW_KINDS), 'prio': rng.choice(PRIOS) if pr else 0})
+        if paused and i == 0:
+            ops.append({'op': 'QPending', 'q': 0})
+            ops.append({'op': 'Resume'})
+        ops.append({'op': 'WUF'})
+        b.client('c%d' % (i + 1), ops)
+    if rng.random() < 0.3:
+        b.client('ctl', [{'op': rng.choice(['PauseAndWait', 'Pause'])}, {'op': 'Resume'}, {'op': 'WUF'}])
+    p = b.prog(cfg)
+    if rng.random() < 0.5:
+        f = {}
+        for call in ('enq', 'deq', 'ack'):
+            if rng.random() < 0.5:
+                f[call] = sorted(set(rng.randrange(6) for _ in range(rng.choice([1, 2]))))
+        p['faults'] = f
+    return p
+
+
+def fam_dist(rng, pid):
+    """several workers consuming one shared distributed adapter"""
+    b = Builder(rng, 'dist', pid)
+    kind = rng.choice(['dfifo', 'dprio'])
+    k = rng.choice([2, 2, 3])
+    cfg = {'wk': 'plain', 'conc': rng.choice([1, 1, 2]), 'queues': [kind], 'consumers': k, 'errs_reader': rng.random() < 0.5}
+    pr = PRIOS if kind == 'dprio' else None
+    if rng.random() < 0.4:
+        cfg['preload'] = [{'job': b.job(0), 'prio': rng.choice(PRIOS) if pr else 0} for _ in range(rng.choice([1, 2, 3]))]
+    for i in range(rng.choice([1, 2])):
+        ops = []
+        for _ in range(rng.choice([2, 3, 4])):
+            op = b.add(rng.randrange(k), pr)      # through any consumer's handle of the shared queue
+            ops.append(op)
+        ops.append({'op': 'WUF'})
+        b.client('c%d' % (i + 1), ops)
+    return b.prog(cfg)
+
+
 LIFE_OPS = ['Bind', 'Pause', 'PauseAndWait', 'Resume', 'Stop', 'WaitAndStop', 'Restart', 'TunePool', 'Add']
 
 
@@ -368,7 +423,7 @@ def life_exhaustive(maxlen, seed, prefix):
     return out
 
 
-FAMILIES = {'life': fam_life, 'basic': fam_basic, 'barrier': fam_barrier, 'ctl': fam_ctl, 'cancel': fam_cancel, 'batch': fam_batch,
+FAMILIES = {'life': fam_life, 'adapter': fam_adapter, 'dist': fam_dist, 'basic': fam_basic, 'barrier': fam_barrier, 'ctl': fam_ctl, 'cancel': fam_cancel, 'batch': fam_batch,
             'handle': fam_handle, 'pool': fam_pool, 'multi': fam_multi}
 
 
